@@ -47,6 +47,8 @@ TNext == /\ l <= Len(Tr)
               \/ e.a = "tick" /\ e.out = <<>> /\ (~TimerEnabled(h) \/ e.t - tw < TMax) /\ UNCHANGED <<h, obs, o4, tw, canc>>
               \* cancelling the caller of a send changes nothing on the link: no output now, the frame's life goes on as if nothing had happened
               \/ e.a = "cancel" /\ e.out = <<>> /\ canc' = canc \cup {e.id} /\ UNCHANGED <<h, obs, o4, tw>>
+              \* the host writes an RST: nothing else happens - in particular a failed link stays failed (and silent) until the RSTACK arrives
+              \/ e.a = "hostreset" /\ Len(e.out) = 1 /\ e.out[1].o = "write" /\ e.out[1].f.type = "RST" /\ UNCHANGED <<h, obs, o4, tw, canc>>
               \/ e.a = "end" /\ h.cur.id = 0 /\ h.q = <<>> /\ e.pending = <<>> /\ e.out = <<>>
                              /\ UNCHANGED <<h, obs, o4, tw, canc>>
          /\ l' = l + 1
